@@ -62,14 +62,74 @@ def expected_units(ref, q, unit_mass):
     return n, T
 
 
+def work(item):
+    """one (family, parameters, unit masses) molecule: the whole quantile grid through the real generator"""
+    fam, params, text, unit, unit2, two, nq = item
+    warnings.simplefilter("ignore")
+    grid = [(i + 0.5) / nq for i in range(nq)]
+    ref = distref.reference(fam, params)
+    out = {"fails": [], "evaluations": 0, "objects": 0, "fam": fam, "hist": {}}
+    mtext = f"C{{[>][<]{unit}[>][<]}}|{text}|" + (f"{{[>][<]{unit2}[>][<]}}|{text}|" if two else "") + "O"
+    out["mtext"] = mtext
+    try:
+        mol = gbigsmiles.Molecule(mtext)
+    except Exception as exc:
+        out["fails"].append(("valid-molecule-rejected", {"text": mtext}, f"{type(exc).__name__}: {exc}"))
+        return out
+    sts = [e for e in mol._elements if isinstance(e, Stochastic)]
+    masses = [frag_info(s.repeat_tokens[0])[1] for s in sts]
+    hist = out["hist"]
+    tot_ref = getattr(ref, "total", 1.0)
+    for qi, q in enumerate(grid):
+        qs = [q, grid[(qi * 7 + 3) % nq]] if two else [q]
+        if any(x >= tot_ref - 1e-9 for x in qs):
+            continue
+        rng = TwoQuantiles(qs)
+        try:
+            g = mol.generate(rng=rng)
+        except Exception as exc:
+            out["fails"].append(("generation-raises", {"text": mtext, "quantiles": qs}, f"{type(exc).__name__}: {exc}"))
+            break
+        ndraw = sum(1 for c in rng.calls if c in ("uniform", "standard_normal", "poisson"))
+        if ndraw != len(sts):
+            out["fails"].append(("draws-per-generation", {"text": mtext, "quantiles": qs}, f"{ndraw} elementary draws for {len(sts)} stochastic objects"))
+            break
+        # units per block from the residue graph (creation order: prefix, block 1 units, block 2 units, suffix)
+        names = [g.graph.nodes[n]["smiles"] for n in sorted(g.graph.nodes())]
+        counts = []
+        pos = 1
+        for s in sts:
+            frag = s.repeat_tokens[0].generate_smiles_fragment()
+            k = 0
+            while pos < len(names) - 1 and names[pos] == frag:
+                k += 1
+                pos += 1
+            counts.append(k)
+        bad = False
+        for j, (k, m) in enumerate(zip(counts, masses)):
+            want, T = expected_units(ref, qs[j], m)
+            out["evaluations"] += 1
+            out["objects"] += 1
+            near = any(abs(n * m - T) <= 1e-9 * max(1.0, abs(T)) for n in (want - 1, want))
+            if k != want and not near:
+                out["fails"].append(("block-size-is-not-the-declared-law", {"text": mtext, "quantiles": qs, "block": j},
+                                     f"quantile {qs[j]} of {text} is {T!r}; unit mass {m}: the block must have {want} units, generated {k}"))
+                bad = True
+                break
+            hist[k] = hist.get(k, 0) + 1
+        if bad:
+            break
+    return out
+
+
 def main():
+    import multiprocessing as mp
     ck = Check("C09")
     ck.do_build()
     rnd = random.Random(ck.seed + 9)
     quick = ck.tier == "quick"
     nq = 40 if quick else 400
-    grid = [(i + 0.5) / nq for i in range(nq)]
-    total_objects = 0
+    items = []
     for fam, params, text in distref.param_grid(rnd, quick):
         ref = distref.reference(fam, params)
         if ref.mean > 1600 and quick:
@@ -79,60 +139,24 @@ def main():
         unit, _ = rnd.choice(UNITS)
         unit2, _ = rnd.choice([u for u in UNITS if u[0] != unit])
         two = rnd.random() < 0.4
-        mtext = f"C{{[>][<]{unit}[>][<]}}|{text}|" + (f"{{[>][<]{unit2}[>][<]}}|{text}|" if two else "") + "O"
-        with warnings.catch_warnings():
-            warnings.simplefilter("ignore")
-            try:
-                mol = gbigsmiles.Molecule(mtext)
-            except Exception as exc:
-                ck.fail("valid-molecule-rejected", {"text": mtext}, f"{type(exc).__name__}: {exc}")
-                continue
-            sts = [e for e in mol._elements if isinstance(e, Stochastic)]
-            masses = [frag_info(s.repeat_tokens[0])[1] for s in sts]
-            hist = {}
-            tot_ref = getattr(ref, "total", 1.0)
-            for q in grid:
-                qs = [q, grid[(grid.index(q) * 7 + 3) % nq]] if two else [q]
-                if any(x >= tot_ref - 1e-9 for x in qs):
-                    continue
-                rng = TwoQuantiles(qs)
-                try:
-                    g = mol.generate(rng=rng)
-                except Exception as exc:
-                    ck.fail("generation-raises", {"text": mtext, "quantiles": qs}, f"{type(exc).__name__}: {exc}")
-                    break
-                ndraw = sum(1 for c in rng.calls if c in ("uniform", "standard_normal", "poisson"))
-                if ndraw != len(sts):
-                    ck.fail("draws-per-generation", {"text": mtext, "quantiles": qs}, f"{ndraw} elementary draws for {len(sts)} stochastic objects")
-                    break
-                # units per block from the residue graph (creation order: prefix, block 1 units, block 2 units, suffix)
-                names = [g.graph.nodes[n]["smiles"] for n in sorted(g.graph.nodes())]
-                counts = []
-                pos = 1
-                for s in sts:
-                    frag = s.repeat_tokens[0].generate_smiles_fragment()
-                    k = 0
-                    while pos < len(names) - 1 and names[pos] == frag:
-                        k += 1
-                        pos += 1
-                    counts.append(k)
-                for j, (k, m) in enumerate(zip(counts, masses)):
-                    want, T = expected_units(ref, qs[j], m)
-                    ck.evaluations += 1
-                    total_objects += 1
-                    near = any(abs(n * m - T) <= 1e-9 * max(1.0, abs(T)) for n in (want - 1, want))
-                    if k != want and not near:
-                        ck.fail("block-size-is-not-the-declared-law", {"text": mtext, "quantiles": qs, "block": j},
-                                f"quantile {qs[j]} of {text} is {T!r}; unit mass {m}: the block must have {want} units, generated {k}")
-                        break
-                    hist[k] = hist.get(k, 0) + 1
-                else:
-                    continue
-                break
-        ck.distinct.add(mtext)
-        ck.count("family:" + fam)
+        items.append((fam, params, text, unit, unit2, two, nq))
+    # heavy molecules first, so that the pool is balanced
+    order = sorted(range(len(items)), key=lambda i: -distref.reference(items[i][0], items[i][1]).mean)
+    with mp.get_context("fork").Pool(min(16, len(items)), initializer=genrun._limit_worker) as pool:
+        res = pool.map(work, [items[i] for i in order], chunksize=1)
+    results = [None] * len(items)
+    for i, r in zip(order, res):
+        results[i] = r
+    total_objects = 0
+    for r in results:
+        for kind, inp, detail in r["fails"]:
+            ck.fail(kind, inp, detail)
+        ck.evaluations += r["evaluations"]
+        total_objects += r["objects"]
+        ck.distinct.add(r["mtext"])
+        ck.count("family:" + r["fam"])
         if len(ck.samples) < 6:
-            ck.samples.append({"text": mtext, "quantiles": nq, "block_size_histogram": dict(sorted(hist.items())[:8])})
+            ck.samples.append({"text": r["mtext"], "quantiles": nq, "block_size_histogram": dict(sorted(r["hist"].items())[:8])})
     ck.count("objects", total_objects)
     ck.rule = ("one case = one generated block: (family x parameter region x unit mass, one or two blocks per molecule) x a grid of quantiles fed through a scripted "
                "generator into the real generation; the block size must be the one the documented law (closed-form quantile) assigns; distinct = molecules; "
